@@ -145,7 +145,9 @@ def shard(ctx):
                 ctx.count("cert-unsupported:" + res[1][:30])
                 continue
             if res[0] == "mismatch":
-                ctx.violation("certificate", {"kind": res[1]}, job, "claimed state satisfies the rules", res[2])
+                ctx.violation("certificate", {"kind": res[1], "matcher_optimisation": mt,
+                                              "blank_inside_a_rule_literal_run": lib.glued_rule_trigger(w["files"])}, job,
+                              "claimed state satisfies the rules", res[2])
                 continue
             ctx.count("programs")
             ctx.count("cert-instr", res[1]["instr"])
